@@ -803,6 +803,11 @@ func (vc *VC) locsOf(env *SpecEnv, e Expr) []Loc {
 						if a.Kind == aObj && len(a.Path) == 0 {
 							return []Loc{{Comp: vc.fieldComp(pt.Elem(), i), Ref: a.Ref}}
 						}
+						// pointer to an element of a slice / array row (&s[k]): the whole element may change
+						// (coarser than the named field; the callee's postconditions say what is kept)
+						if a.Kind == aRow && len(a.Path) >= 1 && a.Path[0].IsIndex {
+							return []Loc{{Comp: vc.elemComp(a.Elem), Ref: a.Ref, Lo: a.Path[0].Index, Hi: fmt.Sprintf("(+ %s 1)", a.Path[0].Index)}}
+						}
 					}
 				}
 			}
@@ -1286,8 +1291,13 @@ func (vc *VC) appendOp(fr *Frame, c *ssa.CallCommon, st *State) Val {
 	// new row content: positions [off, off+len) keep old content, [off+len, off+newLen) = t
 	oldRow := fmt.Sprintf("(select %s %s)", vc.get(st, comp), s.Sl.Arr)
 	row := vc.freshConst("approw", fmt.Sprintf("(Array Int %s)", es))
-	if t.Sl != nil && isLiteralInt(tl) && tl == "1" {
-		// single element append (the common case): no quantifier over the new part
+	if t.Sl != nil && isLiteralInt(tl) && tl == "1" && s.Sl.Off == "0" {
+		// single element append to a slice at offset 0 (the common case), quantifier-free in both cases: the result row is the
+		// old row with the element stored at index len. When a new array is allocated its cells beyond the new length are
+		// zero in Go; here they are left unconstrained (they lie beyond the old capacity) - an over-approximation.
+		vc.emit(fmt.Sprintf("(assert (= %s (store %s %s (select %s %s))))", row, oldRow, s.Sl.Len, tRow, tOff))
+	} else if t.Sl != nil && isLiteralInt(tl) && tl == "1" {
+		// single element append: no quantifier over the new part
 		vc.emit(fmt.Sprintf("(assert (=> %s (= %s (store %s (+ %s %s) (select %s %s)))))", fits, row, oldRow, s.Sl.Off, s.Sl.Len, tRow, tOff))
 		vc.emit(fmt.Sprintf("(assert (=> (not %s) (and (= (select %s %s) (select %s %s)) (forall ((i Int)) (! (=> (and (<= 0 i) (< i %s)) (= (select %s i) (select %s (+ %s i)))) :pattern ((select %s i)))))))", fits, row, s.Sl.Len, tRow, tOff, s.Sl.Len, row, oldRow, s.Sl.Off, row))
 	} else {
